@@ -3,6 +3,7 @@ package protein
 import (
 	"fmt"
 	"math"
+	"strings"
 
 	"gonum.org/v1/gonum/mat"
 )
@@ -76,9 +77,11 @@ func NewProtModel(model int, usegamma bool, alpha float64) (*ProtModel, error) {
 
 // Returns code of the model
 // If the model does not exist, returns -1
+// The name is not case sensitive (the commands document DAYHOFF, JTT, MtRev, LG, WAG);
+// "dayoff" is kept as an alias of "dayhoff"
 func ModelStringToInt(model string) int {
-	switch model {
-	case "dayoff":
+	switch strings.ToLower(model) {
+	case "dayhoff", "dayoff":
 		return MODEL_DAYHOFF
 	case "jtt":
 		return MODEL_JTT
